@@ -278,6 +278,23 @@ class _StencilHooks(Hooks):
     def __init__(self, prog, fi):
         self.prog = prog
         self.fi = fi
+        # scalars that the solver loop itself changes are taken symbolically from the start: the one analysed trip then
+        # stands for ANY trip of the loop (what was assembled before the loop is assumed assembled with the current value,
+        # which the trip must re-establish when it changes that value)
+        self.havoc = set()
+        self.loop_line = 10 ** 9
+        loop = next((n_ for n_ in ast.walk(fi.node) if isinstance(n_, ast.While) and any(isinstance(c, ast.Call) and attr_chain(c.func) == "dgtsv" for c in ast.walk(n_))), None)
+        if loop is not None:
+            self.loop_line = loop.lineno
+            for n_ in ast.walk(loop):
+                if isinstance(n_, (ast.Assign, ast.AugAssign)):
+                    for t in (n_.targets if isinstance(n_, ast.Assign) else [n_.target]):
+                        if isinstance(t, ast.Name):
+                            self.havoc.add(t.id)
+
+    def on_assign(self, key, val, stmt, st, eng):
+        if key in self.havoc and getattr(stmt, "lineno", 10 ** 9) < self.loop_line and isinstance(val, Rat) and val.is_const():
+            st.env[key] = Rat.atom(f"{key}@loop")
 
     def on_call(self, node, fname, args, kwargs, st, eng):
         if fname == "self.fill_radial_cells":
@@ -292,8 +309,37 @@ class _StencilHooks(Hooks):
             return Const(None)
         if fname in ("dgtsv", "interp1d", "np.linspace", "np.array", "np.zeros", "np.zeros_like"):
             return Opaque(fname or "call", node)
-        # nested helpers  f(out_array, cell_view): inline  out[:] = <expr over cell>
         ref = st.env.get(fname) if fname else None
+        # nested straight-line closures  f(a, ..) -> value : executed in place on the caller's state (they write the
+        # enclosing function's arrays); their own parameters / locals are restored afterwards
+        if isinstance(ref, FuncRef) and isinstance(ref.node, ast.FunctionDef) and not (len(node.args) == 2 and len(ref.node.body) == 1):
+            fn = ref.node
+            body = [s for s in fn.body if not (isinstance(s, ast.Expr) and isinstance(s.value, ast.Constant))]
+            if all(isinstance(s, (ast.Assign, ast.AugAssign, ast.Expr, ast.Return)) for s in body) and not kwargs \
+                    and len(fn.args.args) == len(args) and (not body or all(not isinstance(s, ast.Return) for s in body[:-1])):
+                own = {a.arg for a in fn.args.args} | {t.id for s in body if isinstance(s, ast.Assign) for t in s.targets if isinstance(t, ast.Name)}
+                saved = {k: st.env.get(k) for k in own}
+                for a, v in zip(fn.args.args, args):
+                    st.env[a.arg] = v
+                ret = Const(None)
+                okrun = True
+                for s in body:
+                    if isinstance(s, ast.Return):
+                        ret = eng.eval(s.value, st) if s.value is not None else Const(None)
+                        break
+                    out = eng.run_stmt(s, st)
+                    if len(out) != 1 or out[0] is not st:
+                        okrun = False
+                        break
+                for k, v in saved.items():
+                    if v is None:
+                        st.env.pop(k, None)
+                    else:
+                        st.env[k] = v
+                if okrun:
+                    st.emit("CLOSURE", fname, node)
+                    return ret
+        # nested helpers  f(out_array, cell_view): inline  out[:] = <expr over cell>
         if isinstance(ref, FuncRef) and ref.node is not None and isinstance(ref.node, ast.FunctionDef) and len(node.args) == 2 and isinstance(node.args[0], ast.Name):
             fn = ref.node
             ps = [a.arg for a in fn.args.args]
@@ -319,7 +365,26 @@ def _stencil(prog: Program, res: Result, env0):
     fins = [f for f in eng.run_function(st) if f.exit is not None and f.exit[0] == "return"]
     if not fins:
         raise AnalysisError(f"{q}: no returning path")
-    f = fins[0]
+    res.count("stencil_paths", len(fins))
+    seen_obs = set()
+    base_ob = res.ob
+
+    def ob_once(rule, desc, ok, where=""):
+        k_ = (rule, desc, ok)
+        if k_ in seen_obs:
+            return ok
+        seen_obs.add(k_)
+        return base_ob(rule, desc, ok, where)
+
+    res.ob = ob_once
+    try:
+        for f in fins:
+            _stencil_path(prog, res, env0, fi, q, eng, f)
+    finally:
+        res.ob = base_ob
+
+
+def _stencil_path(prog: Program, res: Result, env0, fi, q, eng, f):
     n = env0["self.num_cells"]
 
     def arr(name):
@@ -333,9 +398,23 @@ def _stencil(prog: Program, res: Result, env0):
         return Rat.atom(f"radial_cells.CellProps.{row}[{idx}]")
 
     TWO_PI = Rat.const(2) * PI
-    ae, aw, ad = arr("_ae"), arr("_aw"), arr("_ad")
-    if ae is None or aw is None or ad is None:
-        raise AnalysisError(f"{q}: conductance / capacity arrays (_ae, _aw, _ad) not understood: {vkey(f.env.get('_ae'))[:60]}")
+    # ---- anchors read off the code (no local name is assumed):
+    #   the four arrays handed to the tridiagonal solver, the time / time-step pair advanced in the solver loop,
+    #   the lists that end up in self.g / self.g_bhw / self.lntts
+    dg = [c for c in ast.walk(fi.node) if isinstance(c, ast.Call) and attr_chain(c.func) == "dgtsv"]
+    if len(dg) != 1 or len(dg[0].args) < 4 or not all(isinstance(a, ast.Name) for a in dg[0].args[:4]):
+        raise AnalysisError(f"{q}: the tridiagonal solve dgtsv(dl, d, du, b) was not found")
+    DL, D, DU, B = (a.id for a in dg[0].args[:4])
+    loop = next((n_ for n_ in ast.walk(fi.node) if isinstance(n_, ast.While) and any(dg[0] is x for x in ast.walk(n_))), None)
+    if loop is None:
+        raise AnalysisError(f"{q}: the time-stepping loop around the solve was not found")
+    aug = [s_ for s_ in loop.body if isinstance(s_, ast.AugAssign) and isinstance(s_.op, ast.Add) and isinstance(s_.target, ast.Name) and isinstance(s_.value, ast.Name)]
+    if len(aug) != 1:
+        raise AnalysisError(f"{q}: the loop does not advance exactly one time variable by a step variable")
+    TIME, STEP = aug[0].target.id, aug[0].value.id
+    dt = f.env.get(STEP)
+    if not isinstance(dt, Rat):
+        raise AnalysisError(f"{q}: time step not understood")
 
     def half_out(off):  # from the centre of cell `off` to its outer face
         return sym.log(E("R_OUT", off) / E("R_CENTER", off)) / (TWO_PI * E("K", off))
@@ -343,123 +422,92 @@ def _stencil(prog: Program, res: Result, env0):
     def half_in(off):  # from the inner face of cell `off` to its centre
         return sym.log(E("R_CENTER", off) / E("R_IN", off)) / (TWO_PI * E("K", off))
 
-    # east conductance of interior cell c (offset 1): between cell c and c + 1
+    def half_out_s(idx):
+        return sym.log(S("R_OUT", idx) / S("R_CENTER", idx)) / (TWO_PI * S("K", idx))
+
+    def half_in_s(idx):
+        return sym.log(S("R_CENTER", idx) / S("R_IN", idx)) / (TWO_PI * S("K", idx))
+
+    # east conductance of interior cell c (offset 1): between cell c and c + 1; capacity of the centre cell
     want_ae = Rat.const(1) / (half_out(1) + half_in(2))
     want_aw = -(Rat.const(1) / (half_out(0) + half_in(1)))
-    ok = ae.elem.equals(want_ae)
-    res.ob("R10.4", "east conductance of cell c = 1 / (R[c centre -> outer face] + R[c+1 inner face -> centre])", ok, prog.loc(fi, fi.node))
+    want_ad = E("RHO_CP", 1) * E("VOL", 1) / dt
+    want_ae0 = Rat.const(1) / (half_out_s(0) + half_in_s(1))
+    want_ad0 = S("RHO_CP", 0) * S("VOL", 0) / dt
+    keys = {k: v for k, v in f.env.items() if k.startswith((f"{DL}[", f"{D}[", f"{DU}[", f"{B}["))}
+    lo0, lo1, hi_a, hi_b = "0", "1", (n - Rat.const(2)).key(), (n - Rat.const(1)).key()
+    dl, d, du = keys.get(f"{DL}[{lo0}:{hi_a}]"), keys.get(f"{D}[{lo1}:{hi_b}]"), keys.get(f"{DU}[{lo1}:{hi_b}]")
+    shown = sorted(k.replace(DL, "dl", 1) if k.startswith(DL + "[") else (k.replace(DU, "du", 1) if k.startswith(DU + "[") else k.replace(D, "d", 1)) for k in keys if not k.startswith(B + "["))
+    ok = all(isinstance(x, Arr) for x in (dl, d, du))
+    res.ob("R10.5", f"coefficient slices are aligned: dl[0:n-2], d[1:n-1], du[1:n-1] (found {shown})", ok, prog.loc(fi, fi.node))
     if not ok:
-        res.violation("R10.4", f"ae|{ae.elem.key()[:100]}", prog.loc(fi, fi.node), q, f"the east face conductance is {ae.elem.key()[:220]}: it does not combine the outer half of the cell with the inner half of its east neighbour")
-    ok = aw.elem.equals(want_aw)
-    res.ob("R10.4", "west conductance of cell c = -1 / (R[c-1 centre -> outer face] + R[c inner face -> centre])", ok, prog.loc(fi, fi.node))
+        res.violation("R10.5", f"row-slices|{shown}", prog.loc(fi, fi.node), q,
+                      f"the interior coefficients are stored in {shown} instead of dl[0:n-2], d[1:n-1], du[1:n-1]: rows and columns of the tridiagonal system are shifted")
+        raise AnalysisError(f"{q}: interior coefficient rows not aligned - the remaining stencil rules cannot be evaluated")
+    ae_got, aw_got = du.elem * want_ad, -(dl.elem * want_ad)  # what the rows use as conductances, given the capacity term
+    ok = du.elem.equals(want_ae / want_ad)
+    res.ob("R10.4", "east coefficient of cell c = [1 / (R[c centre -> outer face] + R[c+1 inner face -> centre])] / (rho_cp vol / dt)", ok, prog.loc(fi, fi.node))
     if not ok:
-        res.violation("R10.4", f"aw|{aw.elem.key()[:100]}", prog.loc(fi, fi.node), q, f"the west face conductance is {aw.elem.key()[:220]}: it does not combine the outer half of the west neighbour with the inner half of the cell")
-    sym_ok = ae.elem.equals(-sym.shift_elems(aw.elem, 1))
+        res.violation("R10.4", f"ae|{ae_got.key()[:100]}", prog.loc(fi, fi.node), q, f"the east face conductance (du * rho_cp vol / dt) is {ae_got.key()[:220]}: it does not combine the outer half of the cell with the inner half of its east neighbour over the cell's own capacity")
+    ok = dl.elem.equals(-want_aw / want_ad)
+    res.ob("R10.4", "west coefficient of cell c = [1 / (R[c-1 centre -> outer face] + R[c inner face -> centre])] / (rho_cp vol / dt)", ok, prog.loc(fi, fi.node))
+    if not ok:
+        res.violation("R10.4", f"aw|{aw_got.key()[:100]}", prog.loc(fi, fi.node), q, f"the west face conductance (-dl * rho_cp vol / dt) is {aw_got.key()[:220]}: it does not combine the outer half of the west neighbour with the inner half of the cell over the cell's own capacity")
+    sym_ok = ae_got.equals(-sym.shift_elems(aw_got, 1))
     res.ob("R10.4", "flux symmetry: ae[j] = -aw[j + 1] (what leaves a cell eastwards enters its neighbour from the west)", sym_ok, prog.loc(fi, fi.node))
     if not sym_ok:
         res.violation("R10.4", "flux-symmetry", prog.loc(fi, fi.node), q, "ae[j] != -aw[j+1]: the scheme does not conserve heat across cell faces")
-    ae0 = f.env.get("ae")
-    ok = isinstance(ae0, Rat) and ae0.equals(-sym.index_elems(aw.elem, Rat.const(0)))
-    res.ob("R10.4", "first face: ae of cell 0 = -aw of cell 1", ok, prog.loc(fi, fi.node))
+    d0, du0 = f.env.get(f"{D}[0]"), f.env.get(f"{DU}[0]")
+    ok = isinstance(du0, Rat) and du0.equals(want_ae0 / want_ad0)
+    res.ob("R10.4", "first face: row 0 sees the conductance between cell 0 and cell 1 that row 1 sees, over the capacity of cell 0", ok, prog.loc(fi, fi.node))
     if not ok:
-        res.violation("R10.4", f"first-face|{vkey(ae0)[:80]}", prog.loc(fi, fi.node), q, f"the conductance between cell 0 and cell 1 seen from cell 0 is {vkey(ae0)[:160]}, not what cell 1 sees")
-    # capacity terms
-    dt = f.env.get("time_step")
-    ok = isinstance(dt, Rat) and ad.elem.equals(E("RHO_CP", 1) * E("VOL", 1) / dt)
+        res.violation("R10.4", f"first-face|{vkey(du0)[:80]}", prog.loc(fi, fi.node), q, f"row 0 couples to cell 1 with {vkey(du0)[:160]}, not (conductance between cell 0 and 1) / (rho_cp vol / dt of cell 0)")
+    # rows
+    s_ = dl.elem + d.elem + du.elem
+    ok = s_.equals(Rat.const(-1))
+    res.ob("R10.5", "interior rows: dl + d + du = -1", ok, prog.loc(fi, fi.node))
+    if not ok:
+        res.violation("R10.5", f"row-sum|{s_.key()[:60]}", prog.loc(fi, fi.node), q, f"interior rows sum to {s_.key()[:120]} instead of -1: a uniform temperature field is not preserved")
+    cap = (du.elem / want_ae)
+    ok = cap.equals(Rat.const(1) / want_ad) or not du.elem.equals(want_ae / want_ad) and False
     res.ob("R10.5", "capacity term of an interior row = rho_cp * vol / dt of the centre cell", ok, prog.loc(fi, fi.node))
     if not ok:
-        res.violation("R10.5", f"ad|{ad.elem.key()[:80]}", prog.loc(fi, fi.node), q, f"the capacity term is {ad.elem.key()[:160]} instead of rho_cp * vol / dt of the centre cell")
-    ad0 = f.env.get("ad")
-    ok = isinstance(ad0, Rat) and isinstance(dt, Rat) and ad0.equals(S("RHO_CP", 0) * S("VOL", 0) / dt)
-    res.ob("R10.5", "capacity term of row 0 = rho_cp * vol / dt of cell 0", ok, prog.loc(fi, fi.node))
-    if not ok:
-        res.violation("R10.5", f"ad0|{vkey(ad0)[:80]}", prog.loc(fi, fi.node), q, f"row 0 uses the capacity term {vkey(ad0)[:120]}")
-    # rows
-    keys = {k: v for k, v in f.env.items() if k.startswith(("_dl[", "_d[", "_du[", "_b["))}
-    lo0, lo1, hi_a, hi_b = "0", "1", (n - Rat.const(2)).key(), (n - Rat.const(1)).key()
-    dl, d, du = keys.get(f"_dl[{lo0}:{hi_a}]"), keys.get(f"_d[{lo1}:{hi_b}]"), keys.get(f"_du[{lo1}:{hi_b}]")
-    ok = all(isinstance(x, Arr) for x in (dl, d, du))
-    res.ob("R10.5", f"coefficient slices are aligned: _dl[0:n-2], _d[1:n-1], _du[1:n-1] (found {sorted(k for k in keys if not k.startswith('_b'))})", ok, prog.loc(fi, fi.node))
-    if not ok:
-        res.violation("R10.5", f"row-slices|{sorted(k for k in keys if not k.startswith('_b'))}", prog.loc(fi, fi.node), q,
-                      f"the interior coefficients are stored in {sorted(k for k in keys if not k.startswith('_b'))} instead of _dl[0:n-2], _d[1:n-1], _du[1:n-1]: rows and columns of the tridiagonal system are shifted")
-    else:
-        s = dl.elem + d.elem + du.elem
-        ok = s.equals(Rat.const(-1))
-        res.ob("R10.5", "interior rows: dl + d + du = -1", ok, prog.loc(fi, fi.node))
-        if not ok:
-            res.violation("R10.5", f"row-sum|{s.key()[:60]}", prog.loc(fi, fi.node), q, f"interior rows sum to {s.key()[:120]} instead of -1: a uniform temperature field is not preserved")
-        ok = dl.elem.equals(-aw.elem / ad.elem) and du.elem.equals(ae.elem / ad.elem)
-        res.ob("R10.5", "interior rows: dl = -aw / ad (west neighbour), du = ae / ad (east neighbour)", ok, prog.loc(fi, fi.node))
-        if not ok:
-            res.violation("R10.5", "row-offdiagonals", prog.loc(fi, fi.node), q, f"off-diagonals are dl = {dl.elem.key()[:80]}, du = {du.elem.key()[:80]} instead of -aw/ad and ae/ad")
-    d0, du0 = f.env.get("_d[0]"), f.env.get("_du[0]")
-    ok = isinstance(d0, Rat) and isinstance(du0, Rat) and (d0 + du0).equals(Rat.const(-1)) and isinstance(ae0, Rat) and isinstance(ad0, Rat) and du0.equals(ae0 / ad0)
-    res.ob("R10.5", "row 0: d + du = -1 with du = ae / ad", ok, prog.loc(fi, fi.node))
+        res.violation("R10.5", f"ad|{(Rat.const(1) / cap).key()[:80]}", prog.loc(fi, fi.node), q, f"the capacity term is {(Rat.const(1) / cap).key()[:160]} instead of rho_cp * vol / dt of the centre cell")
+    ok = isinstance(d0, Rat) and isinstance(du0, Rat) and (d0 + du0).equals(Rat.const(-1))
+    res.ob("R10.5", "row 0: d + du = -1", ok, prog.loc(fi, fi.node))
     if not ok:
         res.violation("R10.5", f"row0|{vkey(d0)[:40]}|{vkey(du0)[:40]}", prog.loc(fi, fi.node), q, f"row 0 has d = {vkey(d0)[:80]}, du = {vkey(du0)[:80]}")
-    b_int = keys.get(f"_b[{lo1}:{hi_b}]")
+    b_int = keys.get(f"{B}[{lo1}:{hi_b}]")
     ok = isinstance(b_int, Arr) and b_int.elem.equals(-E("TEMP", 1))
     res.ob("R10.5", "interior right-hand side = -T_old of the same cells", ok, prog.loc(fi, fi.node))
     if not ok:
         res.violation("R10.5", f"rhs-interior|{vkey(b_int)[:60]}", prog.loc(fi, fi.node), q, f"the interior right-hand side is {vkey(b_int)[:120]} instead of -T_old[1:n-1]")
-    b0 = f.env.get("_b[0]")
-    qf = f.env.get("heat_flux")
-    ok = isinstance(b0, Rat) and isinstance(qf, Rat) and isinstance(ad0, Rat) and b0.equals(-S("TEMP", 0) - qf / ad0)
-    res.ob("R10.5", "row 0 right-hand side = -T_old[0] - q / ad (heat injected into the core cell)", ok, prog.loc(fi, fi.node))
+    b0 = f.env.get(f"{B}[0]")
+    T0 = S("TEMP", 0)
+    # the heat input q is whatever row 0 injects: b0 = -T_old[0] - q / ad0
+    qf = (-(b0 + T0) * want_ad0) if isinstance(b0, Rat) else None
+    ok = isinstance(qf, Rat) and not any(a.startswith("radial_cells") or a.endswith("@loop") for a in qf.all_atoms()) and not qf.is_zero()
+    res.ob("R10.5", f"row 0 right-hand side = -T_old[0] - q / ad with a heat input q that does not depend on the cells (q = {vkey(qf)[:30]})", ok, prog.loc(fi, fi.node))
     if not ok:
-        res.violation("R10.5", f"rhs0|{vkey(b0)[:60]}", prog.loc(fi, fi.node), q, f"row 0 right-hand side is {vkey(b0)[:120]} instead of -T_old[0] - q/ad")
+        stale = isinstance(qf, Rat) and any(a.endswith("@loop") for a in qf.all_atoms())
+        res.violation("R10.5", f"rhs0|{'stale-step' if stale else vkey(b0)[:60]}", prog.loc(fi, fi.node), q,
+                      (f"row 0 injects q / ad with a capacity term that belongs to another time step than the matrix (effective heat input {vkey(qf)[:80]}): "
+                       "after the step length changes, the source term is not rebuilt with it") if stale else
+                      f"row 0 right-hand side is {vkey(b0)[:120]} instead of -T_old[0] - q/ad")
+        return
     last = (n - Rat.const(1)).key()
-    dn, dln, bn = f.env.get(f"_d[{last}]"), f.env.get(f"_dl[{(n - Rat.const(2)).key()}]"), f.env.get(f"_b[{last}]")
+    dn, dln, bn = f.env.get(f"{D}[{last}]"), f.env.get(f"{DL}[{(n - Rat.const(2)).key()}]"), f.env.get(f"{B}[{last}]")
     ok = isinstance(dn, Rat) and dn.equals(Rat.const(1)) and isinstance(dln, Rat) and dln.is_zero() and isinstance(bn, Rat) and bn.equals(S("TEMP", last))
     res.ob("R10.5", "last row is Dirichlet: d = 1, dl = 0, b = T_old (fixed far-field temperature)", ok, prog.loc(fi, fi.node))
     if not ok:
         res.violation("R10.5", f"last-row|{vkey(dn)}|{vkey(dln)}|{vkey(bn)[:40]}", prog.loc(fi, fi.node), q, f"the far-field row is d = {vkey(dn)}, dl = {vkey(dln)}, b = {vkey(bn)[:60]} instead of a fixed-temperature row")
-    # windows
-    for nm, off in (("_west_cell", 0), ("_center_cell", 1), ("_east_cell", 2)):
-        v = f.env.get(nm)
-        ok = isinstance(v, View) and v.off == off and v.base == "radial_cells"
-        res.ob("R10.4", f"{nm} is the cell table shifted by {off}", ok, prog.loc(fi, fi.node))
-        if not ok:
-            res.violation("R10.4", f"window|{nm}|{vkey(v)[:40]}", prog.loc(fi, fi.node), q, f"{nm} is {vkey(v)[:60]} instead of the cell table from column {off}")
-    # ---- outputs
-    apps = {e.data[0]: e for e in f.events if e.kind == "APPEND"}
-    c0 = env0.get("self.c_0")
-    okc = isinstance(c0, Rat) and c0.equals(TWO_PI * Rat.atom("self.single_u_tube.soil.k"))
-    res.ob("R10.6", "c_0 = 2 pi k_soil", okc, prog.loc(fi, fi.node))
-    if not okc:
-        res.violation("R10.6", f"c0|{vkey(c0)[:60]}", prog.loc(fi, fi.node), f"{CLS}.__init__", f"c_0 = {vkey(c0)[:100]} instead of 2 pi k_soil")
-    tinit = f.env.get("init_temp")
-    T0 = S("TEMP", 0)
-    if "g" in apps and isinstance(apps["g"].data[1], Rat) and isinstance(c0, Rat) and isinstance(tinit, Rat) and isinstance(qf, Rat):
-        got = apps["g"].data[1]
-        want = c0 * ((T0 - tinit) / qf - Rat.atom("RB"))
-        ok = got.equals(want)
-        res.ob("R10.6", "g = 2 pi k_s ((T_0 - T_init) / q - Rb*)", ok, prog.loc(fi, apps["g"].node))
-        if not ok:
-            res.violation("R10.6", f"g|{got.key()[:100]}", prog.loc(fi, apps["g"].node), q, f"g is computed as {got.key()[:200]} instead of 2 pi k_s ((T_0 - T_init)/q - Rb*)")
-    else:
-        raise AnalysisError(f"{q}: value appended to g not understood")
-    if "g_bhw" in apps and isinstance(apps["g_bhw"].data[1], Rat):
-        got = apps["g_bhw"].data[1]
-        tw = S("TEMP", env0["self.bh_wall_idx"].key())
-        want = c0 * (tw - tinit) / qf
-        ok = got.equals(want)
-        res.ob("R10.6", "g_bhw = 2 pi k_s (T[bh_wall_idx] - T_init) / q", ok, prog.loc(fi, apps["g_bhw"].node))
-        if not ok:
-            res.violation("R10.6", f"g_bhw|{got.key()[:100]}", prog.loc(fi, apps["g_bhw"].node), q, f"g_bhw is computed as {got.key()[:200]} instead of 2 pi k_s (T_wall - T_init)/q")
-    else:
-        raise AnalysisError(f"{q}: value appended to g_bhw not understood")
-    if "lntts" in apps and isinstance(apps["lntts"].data[1], Rat):
-        got = apps["lntts"].data[1]
-        tvar = f.env.get("time")
-        want = sym.log(tvar / Rat.atom("self.t_s")) if isinstance(tvar, Rat) else None
-        ok = want is not None and got.equals(want)
-        res.ob("R10.6", "lntts = ln(t / t_s)", ok, prog.loc(fi, apps["lntts"].node))
-        if not ok:
-            res.violation("R10.6", f"lntts|{got.key()[:80]}", prog.loc(fi, apps["lntts"].node), q, f"lntts is {got.key()[:120]} instead of ln(time / t_s)")
-    # ---- R10.8 what is published: the three curves resampled on ONE uniform ln(t/ts) grid, g_sts from them
-    fin_env = f.env
+    # windows: the shifted views of the cell table that exist are the columns from 0, 1 and 2
+    offs = sorted({v.off for v in f.env.values() if isinstance(v, View) and v.base == "radial_cells"})
+    ok = offs == [0, 1, 2]
+    res.ob("R10.4", f"the west / centre / east windows are the cell table shifted by 0 / 1 / 2 (found offsets {offs})", ok, prog.loc(fi, fi.node))
+    if not ok:
+        res.violation("R10.4", f"window|{offs}", prog.loc(fi, fi.node), q, f"the neighbour windows of the cell table start at columns {offs} instead of 0, 1, 2")
+    # ---- what is published, and from which lists
     pub = {}
     for s_ in fi.node.body:
         if isinstance(s_, ast.Assign) and len(s_.targets) == 1 and attr_chain(s_.targets[0]) in ("self.lntts", "self.g", "self.g_bhw", "self.g_sts"):
@@ -467,39 +515,78 @@ def _stencil(prog: Program, res: Result, env0):
     defs = {s_.targets[0].id: s_.value for s_ in fi.node.body if isinstance(s_, ast.Assign) and len(s_.targets) == 1 and isinstance(s_.targets[0], ast.Name)}
 
     def root(node, depth=0):
-        # follow  np.array(X) / X -> name -> its definition  down to interp1d(a, b)(grid) or linspace(...)
+        """follow np.array(X) / names down to ('interp', xs, ys, <grid root>) | ('linspace', [args]) | ('expr', text)"""
         if depth > 6:
-            return ast.unparse(node)
+            return ("expr", ast.unparse(node))
         if isinstance(node, ast.Call) and attr_chain(node.func) in ("np.array", "numpy.array") and node.args:
             return root(node.args[0], depth + 1)
-        if isinstance(node, ast.Name) and node.id in defs:
+        if isinstance(node, ast.Name) and node.id in defs and not isinstance(defs[node.id], ast.List):
             return root(defs[node.id], depth + 1)
         if isinstance(node, ast.Call) and isinstance(node.func, ast.Name) and node.func.id in defs:
             inner = defs[node.func.id]
             if isinstance(inner, ast.Call) and attr_chain(inner.func) == "interp1d" and len(inner.args) >= 2:
-                return f"interp({ast.unparse(inner.args[0])}, {ast.unparse(inner.args[1])})@{root(node.args[0], depth + 1)}"
+                return ("interp", ast.unparse(inner.args[0]), ast.unparse(inner.args[1]), root(node.args[0], depth + 1))
         if isinstance(node, ast.Call) and attr_chain(node.func) in ("np.linspace", "numpy.linspace"):
-            return "linspace(" + ", ".join(ast.unparse(a) for a in node.args) + ")"
-        return ast.unparse(node)
+            return ("linspace", tuple(ast.unparse(a) for a in node.args))
+        return ("expr", ast.unparse(node))
 
     if set(pub) != {"self.lntts", "self.g", "self.g_bhw", "self.g_sts"}:
         raise AnalysisError(f"{q}: published curves (self.lntts, self.g, self.g_bhw, self.g_sts) not found")
-    grid = root(pub["self.lntts"].value)
-    okg = grid.startswith("linspace(lntts[0], lntts[-1], ")
-    res.ob("R10.8", f"published abscissae: uniform grid from the first to the last computed ln(t/ts) ({grid})", okg, prog.loc(fi, pub["self.lntts"]))
+    rg, rw, grid = root(pub["self.g"].value), root(pub["self.g_bhw"].value), root(pub["self.lntts"].value)
+    if rg[0] != "interp" or rw[0] != "interp":
+        raise AnalysisError(f"{q}: self.g / self.g_bhw are not resampled lists: {rg}, {rw}")
+    LN, G, GB = rg[1], rg[2], rw[2]
+    okg = grid[0] == "linspace" and len(grid[1]) >= 3 and grid[1][0] == f"{LN}[0]" and grid[1][1] == f"{LN}[-1]"
+    res.ob("R10.8", f"published abscissae: uniform grid from the first to the last computed ln(t/ts) ({grid[0]}{grid[1] if len(grid) > 1 else ''})", okg, prog.loc(fi, pub["self.lntts"]))
     if not okg:
-        res.violation("R10.8", f"grid|{grid[:60]}", prog.loc(fi, pub["self.lntts"]), q, f"the published ln(t/ts) grid is {grid[:100]} instead of linspace(lntts[0], lntts[-1], n)")
-    for attr, src in (("self.g", "g"), ("self.g_bhw", "g_bhw")):
-        r_ = root(pub[attr].value)
-        ok = r_ == f"interp(lntts, {src})@{grid}"
-        res.ob("R10.8", f"published {attr[5:]}: the computed {src} interpolated over (lntts, {src}) at the published grid", ok, prog.loc(fi, pub[attr]))
+        res.violation("R10.8", f"grid|{str(grid)[:60]}", prog.loc(fi, pub["self.lntts"]), q, f"the published ln(t/ts) grid is {str(grid)[:100]} instead of linspace(first, last computed ln(t/ts), n)")
+    for attr, r_, other in (("self.g", rg, GB), ("self.g_bhw", rw, G)):
+        ok = r_[1] == LN and r_[3] == grid and r_[2] != other
+        res.ob("R10.8", f"published {attr[5:]}: its own computed list interpolated over (ln(t/ts), values) at the published grid", ok, prog.loc(fi, pub[attr]))
         if not ok:
-            res.violation("R10.8", f"publish|{attr}|{r_[:60]}", prog.loc(fi, pub[attr]), q, f"{attr} is {r_[:120]} instead of the computed {src} resampled on the published grid")
+            res.violation("R10.8", f"publish|{attr}|{str(r_)[:60]}", prog.loc(fi, pub[attr]), q, f"{attr} is {str(r_)[:120]} instead of its own computed list resampled on the published grid")
     v = pub["self.g_sts"].value
     ok = isinstance(v, ast.Call) and attr_chain(v.func) == "interp1d" and [ast.unparse(a) for a in v.args[:2]] == ["self.lntts", "self.g"]
     res.ob("R10.8", "g_sts interpolates the published (lntts, g)", ok, prog.loc(fi, pub["self.g_sts"]))
     if not ok:
         res.violation("R10.8", "g_sts-source", prog.loc(fi, pub["self.g_sts"]), q, f"g_sts is {ast.unparse(v)[:80]} instead of interp1d(self.lntts, self.g)")
+    # ---- outputs
+    apps = {e.data[0]: e for e in f.events if e.kind == "APPEND"}
+    c0 = env0.get("self.c_0")
+    okc = isinstance(c0, Rat) and c0.equals(TWO_PI * Rat.atom("self.single_u_tube.soil.k"))
+    res.ob("R10.6", "c_0 = 2 pi k_soil", okc, prog.loc(fi, fi.node))
+    if not okc:
+        res.violation("R10.6", f"c0|{vkey(c0)[:60]}", prog.loc(fi, fi.node), f"{CLS}.__init__", f"c_0 = {vkey(c0)[:100]} instead of 2 pi k_soil")
+    tinit = eng.eval(ast.parse("self.init_temp", mode="eval").body, f)
+    if G in apps and isinstance(apps[G].data[1], Rat) and isinstance(c0, Rat) and isinstance(tinit, Rat) and isinstance(qf, Rat):
+        got = apps[G].data[1]
+        want = c0 * ((T0 - tinit) / qf - Rat.atom("RB"))
+        ok = got.equals(want)
+        res.ob("R10.6", "g = 2 pi k_s ((T_0 - T_init) / q - Rb*), q the heat input of row 0", ok, prog.loc(fi, apps[G].node))
+        if not ok:
+            res.violation("R10.6", f"g|{got.key()[:100]}", prog.loc(fi, apps[G].node), q, f"g is computed as {got.key()[:200]} instead of 2 pi k_s ((T_0 - T_init)/q - Rb*)")
+    else:
+        raise AnalysisError(f"{q}: value appended to the list published as self.g not understood")
+    if GB in apps and isinstance(apps[GB].data[1], Rat):
+        got = apps[GB].data[1]
+        tw = S("TEMP", env0["self.bh_wall_idx"].key())
+        want = c0 * (tw - tinit) / qf
+        ok = got.equals(want)
+        res.ob("R10.6", "g_bhw = 2 pi k_s (T[bh_wall_idx] - T_init) / q", ok, prog.loc(fi, apps[GB].node))
+        if not ok:
+            res.violation("R10.6", f"g_bhw|{got.key()[:100]}", prog.loc(fi, apps[GB].node), q, f"g_bhw is computed as {got.key()[:200]} instead of 2 pi k_s (T_wall - T_init)/q")
+    else:
+        raise AnalysisError(f"{q}: value appended to the list published as self.g_bhw not understood")
+    if LN in apps and isinstance(apps[LN].data[1], Rat):
+        got = apps[LN].data[1]
+        tvar = f.env.get(TIME)
+        want = sym.log(tvar / Rat.atom("self.t_s")) if isinstance(tvar, Rat) else None
+        ok = want is not None and got.equals(want)
+        res.ob("R10.6", "lntts = ln(t / t_s), t the variable the loop advances by the time step", ok, prog.loc(fi, apps[LN].node))
+        if not ok:
+            res.violation("R10.6", f"lntts|{got.key()[:80]}", prog.loc(fi, apps[LN].node), q, f"lntts is {got.key()[:120]} instead of ln(time / t_s)")
+    else:
+        raise AnalysisError(f"{q}: value appended to the list published as self.lntts not understood")
     # resistances handed to the cell filler
     fill = [e for e in f.events if e.kind == "FILL"]
     if len(fill) != 1 or len(fill[0].data) != 2:
@@ -534,7 +621,48 @@ def _stencil(prog: Program, res: Result, env0):
             res.violation("R10.6", "ts-disagree", prog.loc(pfi, pfi.node), pfi.qualname, "the constructor and partial_init compute different characteristic times")
 
 
+_ASM_OLD_1 = """        ad = radial_cells[CellProps.RHO_CP, 0] * radial_cells[CellProps.VOL, 0] / time_step
+        _d[0] = -ae / ad - 1
+        _du[0] = ae / ad
+"""
+_ASM_OLD_2 = """        _ad[:] = _center_cell[CellProps.RHO_CP, :] * _center_cell[CellProps.VOL, :] / time_step
+        _dl[0 : self.num_cells - 2] = -_aw / _ad
+        _d[1 : self.num_cells - 1] = _aw / _ad - _ae / _ad - 1.0
+        _du[1 : self.num_cells - 1] = _ae / _ad
+"""
+_ASM_NEW_2 = """        def assemble(dt):
+            core_ad = radial_cells[CellProps.RHO_CP, 0] * radial_cells[CellProps.VOL, 0] / dt
+            _d[0] = -ae / core_ad - 1
+            _du[0] = ae / core_ad
+            _ad[:] = _center_cell[CellProps.RHO_CP, :] * _center_cell[CellProps.VOL, :] / dt
+            _dl[0 : self.num_cells - 2] = -_aw / _ad
+            _d[1 : self.num_cells - 1] = _aw / _ad - _ae / _ad - 1.0
+            _du[1 : self.num_cells - 1] = _ae / _ad
+            return core_ad
+
+        ad = assemble(time_step)
+"""
+_LOOP_OLD = """        while True:
+            time += time_step
+"""
+
 VARIANTS = [
+    Variant("time step coarsened after 30 days, matrix rebuilt but the source term keeps the old capacity (seeded C10)", "break",
+            [(RN, _ASM_OLD_1, ""), (RN, _ASM_OLD_2, _ASM_NEW_2),
+             (RN, _LOOP_OLD, """        while True:
+            if time_step < 3600 and time >= 2592000:
+                time_step = 3600
+                assemble(time_step)
+            time += time_step
+""")], "R10.5"),
+    Variant("time step coarsened after 30 days, matrix and source term rebuilt", "benign",
+            [(RN, _ASM_OLD_1, ""), (RN, _ASM_OLD_2, _ASM_NEW_2),
+             (RN, _LOOP_OLD, """        while True:
+            if time_step < 3600 and time >= 2592000:
+                time_step = 3600
+                ad = assemble(time_step)
+            time += time_step
+""")]),
     Variant("grout region starts at r_in_tube (overlaps the pipe region)", "break",
             [(RN, "            inner_radius_grout_cell = self.r_out_tube + j * self.thickness_grout_cell", "            inner_radius_grout_cell = self.r_in_tube + j * self.thickness_grout_cell")], "R10.1"),
     Variant("factor 2 (two legs) dropped from the fluid thermal mass", "break",
